@@ -859,6 +859,10 @@ def oracle(sp, s):
             if exists:
                 fails.append('matching objects (%s) reported as non-matching' % s['what'])
             return fails
+        except Exception as e:  # neither an orientation nor "non-matching": the answer the property demands is missing
+            fails.append('Orientation.compute raised %s (%s) for %s objects (%s) instead of returning an orientation or '
+                         'raising OrientationError' % (type(e).__name__, str(e)[:100], 'matching' if exists else 'non-matching', s['what']))
+            return fails
         if not exists:
             fails.append('non-matching objects (%s) reported as matching with %s/%s' % (s['what'], o.perm, o.flip))
         elif not fits(s['a'], bn, list(o.perm), list(o.flip)):
